@@ -13,7 +13,7 @@ static int want(const char *p) { return !strcmp(g_prop, "ALL") || !strcmp(g_prop
 enum { K_CALLS, K_C06, K_C05, K_C03, K_DEATH, K_NUM };
 static const char *KN[] = {"calls", "c06_decided", "c05_decided", "c03_decided", "worker_deaths"};
 static unsigned long long K[K_NUM]; static char g_wit[900]; static int g_samples;
-static FILE *g_in;
+
 
 static void vio(const char *prop, const char *fn, const char *rule, const char *det, const char *obs, const char *scn) {
     char key[260], what[520];
@@ -139,7 +139,11 @@ static void t_time(void) {
         }
     }
 }
-static void set_stdin(const char *text, size_t n) { int fd = fileno(g_in); if (ftruncate(fd, 0)) {} lseek(fd, 0, SEEK_SET); if (write(fd, text, n) < 0) {} lseek(fd, 0, SEEK_SET); clearerr(stdin); fseek(stdin, 0, SEEK_SET); }
+static char g_inpath[64];
+static void set_stdin(const char *text, size_t n) {   /* a fresh stream per scenario: no buffered state survives from the previous one */
+    FILE *w = fopen(g_inpath, "w"); if (w) { if (n) fwrite(text, 1, n, w); fclose(w); }
+    if (!freopen(g_inpath, "r", stdin)) { fprintf(stderr, "misc: freopen(stdin) failed\n"); _exit(3); }
+}
 static void t_gets(void) {
     char line[200], scn[160]; static const size_t DM[] = {1, 2, 3, 8, 31, 32, 33, 64};
     for (unsigned d = 0; d < sizeof DM / sizeof DM[0]; d++) for (long rel = -3; rel <= 3; rel++) for (int nl = 0; nl < 2; nl++) {
@@ -218,11 +222,12 @@ int main(int argc, char **argv) {
         else { fprintf(stderr, "unknown arg %s\n", argv[i]); return 2; }
     }
     setlocale(LC_ALL, "C"); setenv("TZ", "UTC", 1); tzset();
-    g_in = tmpfile(); if (!g_in) return 2; dup2(fileno(g_in), 0);
+    { snprintf(g_inpath, sizeof g_inpath, "/tmp/misc-stdin-XXXXXX"); int fd = mkstemp(g_inpath); if (fd < 0) return 2; close(fd); if (!freopen(g_inpath, "r", stdin)) return 2; }
     arena_init(); fence_init(); shm_init(); probes_install(); fp_init();
     int dummy = 0; run_supervised(body, on_death, &dummy, 0, 6, 30);
     for (int i = 0; i < K_NUM; i++) emit_counter(KN[i], CTR(i));
     emit_counter("footprint_checks", CTR(60));
     fprintf(g_out, "{\"t\":\"end\"}\n"); fflush(g_out);
+    unlink(g_inpath);
     return 0;
 }
